@@ -202,6 +202,16 @@ void XPathMatcher::startElement(const XMLElementDecl& elemDecl,
             continue;
         }
 
+        // ".//step" is descendant-or-self::node()/child::step: the context element (the
+        // one that consumed the self::node() step) can be the parent of a match but is
+        // never itself selected by the child step
+        if (descendantStep > startStep && sawDescendant &&
+            locPath->getStep(fCurrentStep[i])->getAxisType() == XercesStep::AxisType_CHILD) {
+
+            fCurrentStep[i] = descendantStep;
+            continue;
+        }
+
         // match child::... step, if haven't consumed any self::node()
         if ((fCurrentStep[i] == startStep || fCurrentStep[i] > descendantStep) &&
             locPath->getStep(fCurrentStep[i])->getAxisType() == XercesStep::AxisType_CHILD) {
@@ -246,13 +256,23 @@ void XPathMatcher::startElement(const XMLElementDecl& elemDecl,
 
                 XercesNodeTest* nodeTest = locPath->getStep(fCurrentStep[i])->getNodeTest();
 
+                bool attrStepTaken = false;
+
                 for (XMLSize_t attrIndex = 0; attrIndex < attrCount; attrIndex++) {
 
                     const XMLAttr* curDef = attrList.elementAt(attrIndex);
 
+                    // namespace declarations are not attributes in the XPath data model
+                    if (XMLString::equals(curDef->getPrefix(), XMLUni::fgXMLNSString) ||
+                        XMLString::equals(curDef->getQName(), XMLUni::fgXMLNSString))
+                        continue;
+
                     if (matches(nodeTest, curDef->getAttName())) {
 
-                        fCurrentStep[i]++;
+                        if (!attrStepTaken) {
+                            fCurrentStep[i]++;
+                            attrStepTaken = true;
+                        }
 
                         if (fCurrentStep[i] == stepSize) {
 
@@ -286,7 +306,8 @@ void XPathMatcher::startElement(const XMLElementDecl& elemDecl,
                             else
                                 matched(value, dv, false);
                         }
-                        break;
+                        else
+                            break;
                     }
                 }
             }
